@@ -11,14 +11,16 @@ from harness import common, tlc
 
 CFG = """CONSTANT Tier = "quick"
 CONSTANT Deviations = %s
+CONSTANT IdEnc = %s
 SPECIFICATION Spec
 INVARIANT ArgLaw
 INVARIANT ArgSound
 INVARIANT InterfacesLaw
 INVARIANT NullabilityLaw
+INVARIANT IdRoundTrip
 """
 NEGATIVE = {"nullskips": "ArgLaw", "directbases": "InterfacesLaw", "enumdefault": "ArgLaw", "ehcatchesargs": "ArgLaw",
-            "infobreak": "ArgLaw"}
+            "infobreak": "ArgLaw", "idliteralraw": "ArgLaw"}
 FINDING = "F-gql-enum-default"
 # classes of the model that are parametrisations of the generic class Box of the module header
 GENERICS = {"IntBox": "Box[int]", "StrBox": "Box[str]"}
@@ -61,6 +63,7 @@ class Box(Generic[T]):
 
 
 Score = NewType("Score", int)
+Uid = NewType("Uid", str)      # listed in id_types: a GraphQL ID
 CInt = Annotated[int, schema(min=0)]
 Lit = Annotated[Literal["x", "y"], type_name("Lit")]
 '''
@@ -76,6 +79,8 @@ def type_expr(T: dict) -> str:
         return "ID"
     if k == "score":
         return "Score"
+    if k == "uid":
+        return "Uid"
     if k == "lit":
         return "Lit"
     if k == "enum":
@@ -207,14 +212,27 @@ def load_module(model: dict):
     return mod
 
 
+def id_encode(s: str) -> str:
+    return "i:" + s
+
+
+def id_decode(s: str) -> str:
+    """Inverse of id_encode; raises on anything that is not an encoded identifier (GraphQL!IdDecode)."""
+    if not isinstance(s, str) or not s.startswith("i:"):
+        raise ValueError(f"not an encoded ID: {s!r}")
+    return s[2:]
+
+
 class Setting:
-    def __init__(self, label: str, aliaser, enum_aliaser):
-        self.label, self.aliaser, self.enum_aliaser = label, aliaser, enum_aliaser
+    def __init__(self, label: str, aliaser, enum_aliaser, idenc: bool = False):
+        self.label, self.aliaser, self.enum_aliaser, self.idenc = label, aliaser, enum_aliaser, idenc
 
     def kwargs(self) -> dict:
         kw = {}
-        if self.label != "default":
+        if self.label == "custom":
             kw = {"aliaser": self.aliaser, "enum_aliaser": self.enum_aliaser}
+        if self.idenc:
+            kw["id_encoding"] = (id_decode, id_encode)
         return kw
 
 
@@ -222,7 +240,8 @@ def settings() -> List[Setting]:
     from apischema.utils import to_camel_case
 
     return [Setting("default", to_camel_case, str.upper),
-            Setting("custom", lambda s: "x_" + s, lambda s: s.lower() + "_e")]
+            Setting("custom", lambda s: "x_" + s, lambda s: s.lower() + "_e"),
+            Setting("ids", to_camel_case, str.upper, idenc=True)]
 
 
 class World:
@@ -344,7 +363,7 @@ def run_setting(rep: common.Report, model: dict, cases: List[dict], st: Setting)
             ops.append(ns[f"param_{i}"])
     classes = [getattr(mod, name) for name, c in model["ct"].items() if c["kind"] != "hidden" and name not in GENERICS]
     try:
-        schema = graphql_schema(query=ops, types=classes, **st.kwargs())
+        schema = graphql_schema(query=ops, types=classes, id_types=[mod.Uid], **st.kwargs())
     except Exception as exc:
         rep.violation(f"graphql_schema raised {type(exc).__name__}: {exc} [{st.label}]", info0)
         return 1
@@ -362,7 +381,7 @@ def run_setting(rep: common.Report, model: dict, cases: List[dict], st: Setting)
         t = schema.type_map.get(cname)
         info = dict(info0, cls=cname, expected=exp)
         want_kind = graphql.GraphQLInterfaceType if exp["kind"] == "interface" else graphql.GraphQLObjectType
-        if cname in ("LeafIn", "EnumIn", "SubIn"):
+        if cname in ("LeafIn", "EnumIn", "SubIn", "IdIn"):
             t_in = schema.type_map.get(cname + "Input")
             if not isinstance(t_in, graphql.GraphQLInputObjectType):
                 rep.violation(f"input type {cname}Input missing from the type map [{st.label}]", info)
@@ -421,15 +440,28 @@ def run_setting(rep: common.Report, model: dict, cases: List[dict], st: Setting)
         if got_a != c["arg"]:
             rep.violation(f"argument {type_expr(p['t'])} (default {p['def']['k']}): {got_a} but the model says {c['arg']} [{st.label}]",
                           dict(info0, p=p))
-        for case in c["cases"]:
+        for case, ch in [(case, ch) for case in c["cases"] for ch in ("lit", "var")]:
+            sup, exp = case["in"], case["out"][ch]
+            if ch == "var" and (sup["k"] == "omitted" or arg is None):
+                continue          # an omitted argument has no channel
             n += 1
-            sup, exp = case["in"], case["out"]
             box.pop("received", None)
-            call = name if sup["k"] == "omitted" else f"{name}({st.aliaser(p['name'])}: {w.literal(sup['d'])})"
-            res = graphql.graphql_sync(schema, "{ " + call + " }")
+            variables = None
+            if sup["k"] == "omitted":
+                call = query = name
+            elif ch == "lit":
+                call = query = f"{name}({st.aliaser(p['name'])}: {w.literal(sup['d'])})"
+            else:
+                call = f"{name}({st.aliaser(p['name'])}: $v)"
+                query = f"query($v: {arg.type}) {{ {call} }} with v = {json.dumps(w.data(sup['d']))}"
+                variables = {"v": w.data(sup["d"])}
+            if variables is None:
+                res = graphql.graphql_sync(schema, "{ " + call + " }")
+            else:
+                res = graphql.graphql_sync(schema, f"query($v: {arg.type}) {{ {call} }}", variable_values=variables)
             called = "received" in box
-            info = dict(info0, p=p, supply=sup, expected=exp, query=call, errors=[str(e) for e in res.errors or []])
-            what = f"{{ {call} }} (error_handler {p.get('eh', 'unset')}) with parameter {p['name']}: {type_expr(p['t'])}" + \
+            info = dict(info0, p=p, supply=sup, channel=ch, expected=exp, query=query, errors=[str(e) for e in res.errors or []])
+            what = f"{{ {query} }} (error_handler {p.get('eh', 'unset')}) with parameter {p['name']}: {type_expr(p['t'])}" + \
                    (f" = {default_expr(p['def'], False)}" if p["def"]["k"] != "req" else "")
             if exp["kind"] == "error":
                 if called or not res.errors:
@@ -456,32 +488,42 @@ def main() -> int:
     rep = common.Report("C19", "model_checking")
     rep.assumptions = ["one data model (12 classes: objects, interfaces two levels deep and through a concrete class, union, enum, Literal, "
                        "NewType scalar, ID, constrained int, flattened field, resolver with a parameter), two settings of aliaser / enum_aliaser",
-                       "subscriptions, relay helpers, id_types / id_encoding, error_handler, conversions in GraphQL are not modelled",
+                       "id_types (a NewType over str) in every setting, id_encoding in a third setting; every supplied argument through two channels (query literal, variable)",
+                       "subscriptions, relay helpers, asynchronous resolvers, conversions in GraphQL are not modelled",
                        "`x: int = None` (implicit Optional) parameters are outside the pool"]
     for dev, law in NEGATIVE.items():
-        res = tlc.run_tlc("MC_Gql", CFG % ('{"%s"}' % dev), workers=4, timeout_s=900)
+        res = tlc.run_tlc("MC_Gql", CFG % ('{"%s"}' % dev, "TRUE" if dev == "idliteralraw" else "FALSE"), workers=4, timeout_s=900)
         if res.violated != law:
             raise tlc.MachineryError(f"negative check: deviation {dev} should violate {law}, TLC said {res.violated!r}")
         rep.add("negative_checks")
-    res = tlc.run_tlc("MC_Gql", CFG % "{}", workers=4, env={"EMIT": "1"}, timeout_s=900)
-    if res.violated:
-        rep.violation(f"TLC: {res.violated} violated by the model", {"tlc": res.error_trace[:40]})
-    objs = [json.loads(json.loads(p)) for p in res.prints if p.startswith('"')]
-    header = next((o for o in objs if o.get("header")), None)
-    cases = [o for o in objs if "kind" in o]
-    if header is None or not cases:
-        raise tlc.MachineryError("TLC emitted no case")
-    cases.sort(key=lambda c: json.dumps(c, sort_keys=True))
     n = 0
-    for st in settings():
-        import apischema.cache
+    states = trans = 0
+    all_cases: List[dict] = []
+    for idenc in (False, True):
+        res = tlc.run_tlc("MC_Gql", CFG % ("{}", "TRUE" if idenc else "FALSE"), workers=4, env={"EMIT": "1"}, timeout_s=900)
+        if res.violated:
+            rep.violation(f"TLC: {res.violated} violated by the model (IdEnc = {idenc})", {"tlc": res.error_trace[:40]})
+        objs = [json.loads(json.loads(p)) for p in res.prints if p.startswith('"')]
+        header = next((o for o in objs if o.get("header")), None)
+        cases = [o for o in objs if "kind" in o]
+        if header is None or not cases:
+            raise tlc.MachineryError("TLC emitted no case")
+        cases.sort(key=lambda c: json.dumps(c, sort_keys=True))
+        states += res.distinct
+        trans += res.states
+        all_cases += cases
+        for st in settings():
+            if st.idenc != idenc:
+                continue
+            import apischema.cache
 
-        apischema.cache.reset()
-        n += run_setting(rep, header["model"], cases, st)
+            apischema.cache.reset()
+            n += run_setting(rep, header["model"], cases, st)
+    cases = all_cases
     for c in cases[:: max(1, len(cases) // 5)]:
         rep.sample({k: v for k, v in c.items() if k != "typemap"})
-    rep.set("states", res.distinct)
-    rep.set("transitions", res.states)
+    rep.set("states", states)
+    rep.set("transitions", trans)
     rep.set("traces_validated_against_impl", n)
     rep.set("evaluations", n)
     rep.set("distinct_nontrivial", len(cases))
